@@ -6,7 +6,13 @@ import PP.Driver.GraphCodec
 import PP.Model.Color
 import PP.Model.Cost
 import PP.Spec.Unescape
+import PP.Proofs.ToksVal
 open PP PP.Sexp
+
+def encodeCT : Tok.CT → Sexp
+  | .code s => ofStr "c" s
+  | .lit (some v) => ofStr "l" v
+  | .lit none => sym "lbad"
 
 /-- one layout configuration `(w rw smart)` -/
 def decodeCfg : Sexp → Option Cfg
@@ -77,6 +83,13 @@ def handle (req : Sexp) : Sexp :=
       .list (sym "ok" :: sets.map fun st =>
         let out := Pr.sdocsM st v
         .list [encodeSDocs out, ofStr "text" (render out)])
+    | _, _ => sym "bad-request"
+  | .list (.atom "ctoks" :: v :: sets) =>
+    match decodeVal v, sets.mapM decodeSettings with
+    | some v, some sets =>
+      .list (sym "ok" :: sets.map fun st =>
+        .list [.list (sym "toks" :: (Tok.ctoks (Pr.sdocsM st v)).map encodeCT),
+               .list (sym "canon" :: (Tok.canonW st.ctx.norm v none).map encodeCT)])
     | _, _ => sym "bad-request"
   | .list [.atom "strlines", isB, slash, maxLen, q, .list chars] =>
     match nat? isB, nat? slash, nat? maxLen, nat? q, nats? chars with
